@@ -212,7 +212,6 @@ func execAtomic(c *core.Ctx, cs Case) {
 		c.Count("atomic_sequential")
 	} else {
 		c.Count("atomic_concurrent")
-		c.Nontrivial() // at least two goroutines on one AtomicValue
 	}
 	var v sync2.AtomicValue[int]
 	var clock int64
@@ -288,6 +287,7 @@ func execAtomic(c *core.Ctx, cs Case) {
 	}
 	if overlap {
 		c.Count("atomic_histories_with_overlapping_calls")
+		c.Nontrivial() // calls of different goroutines really overlapped
 	}
 	if n == 1 {
 		if msg := sequentialOracle(all); msg != "" {
